@@ -318,8 +318,11 @@ C11Entry(pre, out, j) ==
       ghost == IF p \in DOMAIN pre.hist THEN pre.hist[p] ELSE {}
       inside == {n \in out[j].c : n # p /\ n \in DescSet(p)}
       leaves(S) == {n \in S : IsLeaf(n)}
+      once == \A i1, i2 \in lo..(j - 1) :
+                 (out[i1].k = "sched" /\ out[i2].k = "sched" /\ out[i1].a = out[i2].a) => i1 = i2
   IN IF p \in out[j].d \/ exitedEarlier THEN {}          \* parent still active: unspecified
-     ELSE IF ghost = {} THEN
+     ELSE Tag(once, "entered_once") \cup
+     IF ghost = {} THEN
         IF D.hdefault[h] # NONE
         THEN Tag(inside = EnterTowards(D.hdefault[h], p) \cup DefClosure(D.hdefault[h]), "default_target")
         ELSE Tag(inside = DefClosure(p) \ {p}, "default_entry")
